@@ -98,6 +98,44 @@ def s_send(vc):
         vc.ensure("nothing_after_close", len(out.trace) == 0)
 
 
+@scenario("handle_event.stream_reset.reaches_the_paired_stream_as_reset", functions=[R + "._handle_event"], extra_inline_roots=AIOQUIC)
+def s_reset(vc):
+    """A reset of one stream arrives on the *paired* stream of the other connection as a reset carrying the same error code -
+    not as a clean end-of-stream - for every pair of ids (client-side and server-side ids differ as soon as streams are
+    opened out of order or initiated by the server)."""
+    from mitmproxy.connection import ConnectionState as S
+    from_client = vc.case("reset_from", ["client", "server"]) == "client"
+    cid = vc.sym_int("cid", lo=0)
+    sid = vc.sym_int("sid", lo=0)
+    code = vc.sym_int("error_code", lo=0)
+    raw, child, qc, qs, sc, ss, ids = mk_raw(vc, cid, sid, S.OPEN, S.OPEN)
+    other_q, other_sid = (qs, sid) if from_client else (qc, cid)
+    fin = vc.new("mitmproxy.proxy.layers.quic._commands:SendQuicStreamData", connection=other_q, stream_id=other_sid, data=b"", end_stream=True)
+    log = vc.new("mitmproxy.proxy.commands:Log", message="closing", level=20)
+    calls = []
+
+    def closes(v, self_, stream_layer, client):
+        calls.append((stream_layer, client))
+        return v.gen([log, fin])          # what closing the incoming half produces: the child's half-close, translated to a FIN
+
+    vc.summary(R + ".close_stream_layer", closes)
+    ev = vc.new("mitmproxy.proxy.layers.quic._events:QuicStreamReset", connection=qc if from_client else qs, stream_id=cid if from_client else sid, error_code=code)
+    out = vc.call(R + "._handle_event", raw, ev)
+    vc.ensure("no_exception", out.ok)
+    if not out.ok:
+        return
+    vc.ensure("incoming_half_of_this_stream_closed", len(calls) == 1 and calls[0][0] is child and vc.eq(calls[0][1], from_client))
+    resets = [c for c in out.trace if is_cmd(c, "ResetQuicStream")]
+    fins = [c for c in out.trace if is_cmd(c, "SendQuicStreamData")]
+    vc.ensure("one_reset_no_clean_fin", len(resets) == 1 and len(fins) == 0)
+    if len(resets) == 1:
+        r = resets[0]
+        vc.ensure("reset.on_paired_connection", r.connection is other_q)
+        vc.ensure("reset.on_paired_stream", r.stream_id == other_sid)
+        vc.ensure("reset.same_error_code", r.error_code == code)
+    vc.ensure("other_commands_passed_on", len(out.trace) == 2 and out.trace[0] is log)
+
+
 @scenario("event_to_child.open_connection", functions=[R + ".event_to_child", R + ".get_next_available_stream_id", Q + ".open_server_stream"], extra_inline_roots=AIOQUIC)
 def s_open(vc):
     from mitmproxy.connection import ConnectionState as S
